@@ -96,6 +96,7 @@ package payload
 //@   ensures  end-of-bin: old(b.partIndex) >= len(b.bin.parts) ==> b.eob && r0 == nil && b.partIndex == old(b.partIndex) && b.binPart == old(b.binPart)
 //@   modifies b.partProgress, b.binPart, b.partIndex, b.handle, b.eob, entries(b.bin.times), clock
 //@   before call opener assert opens-the-part-file: arg0 == b.bin.parts[old(b.partIndex)].Binnable
+//@   on return assert every-part-is-opened-and-positioned: old(b.partIndex) < len(old(b.bin.parts)) && r0 == nil ==> called(opener) && lastret(opener, 1) == nil && called(io.Seeker.Seek) && lastret(io.Seeker.Seek, 1) == nil && b.handle == lastret(opener, 0) && lastarg(io.Seeker.Seek, 1) == b.binPart.beg
 //@   before call io.Seeker.Seek assert seeks-to-the-part-start: arg1 == b.binPart.beg && arg2 == 0 && arg0 == b.handle
 
 //@ func (*Encoder).Read
